@@ -734,7 +734,7 @@ fn rich_world() -> (Covercrypt, MasterSecretKey, MasterPublicKey, Vec<UserSecret
     (cc, msk, mpk, keys, encs)
 }
 
-// @obl props=C13 tier=quick fn=core::serialization::write shape="master / public / user keys, encapsulations, tracing keys, ids, right keys, structure, dimensions, cleartext header after a history (2-3 revisions, disabled right, mixed flavours, 3 users); empty structure"
+// @obl props=C13,C06 tier=quick fn=core::serialization::write shape="master / public / user keys (incl. chains of mixed flavours), attributes in every hint / status combination, encapsulations, tracing keys, ids, right keys, structure, dimensions, cleartext header after a history (2-3 revisions, disabled right, mixed flavours, 3 users); empty structure"
 #[test]
 fn serialization__length_write_read_roundtrip() {
     let (cc, msk, mpk, keys, encs) = rich_world();
@@ -755,6 +755,38 @@ fn serialization__length_write_read_roundtrip() {
     }
     for pk in mpk.encryption_keys.values() { check_ser(pk, "RightPublicKey"); n += 1; }
     for e in &encs { check_ser(e, "XEnc"); check_ser(&e.encapsulations, "Encapsulations"); n += 2; }
+    // a chain whose revisions have different flavours (the hint of a right was downgraded after a rekey: update_msk
+    // drops the KEM key of the newest secret only), and the reverse
+    {
+        let reload = |m: &MasterSecretKey| MasterSecretKey::deserialize(&m.serialize().unwrap()).unwrap();
+        let mut m = reload(&msk);
+        let r = m.secrets.iter().find(|(_, c)| c.len() >= 2 && c.iter().all(|(_, k)| k.is_hybridized())).map(|(r, _)| r.clone());
+        match r {
+            Some(r) => {
+                let chain = m.secrets.map.get_mut(&r).unwrap();
+                let front = chain.front_mut().unwrap();
+                front.1 = front.1.drop_hybridization();
+                check_ser(&m, "MasterSecretKey with a chain of mixed flavours (classic front, hybridized older secret)");
+                let mut m2 = reload(&msk);
+                let chain = m2.secrets.map.get_mut(&r).unwrap();
+                let back = chain.back_mut().unwrap();
+                back.1 = back.1.drop_hybridization();
+                check_ser(&m2, "MasterSecretKey with a chain of mixed flavours (hybridized front, classic older secret)");
+                n += 2;
+            }
+            None => vchk!(false, "C13: the rich history has no hybridized chain with two revisions (the check lost its subject)"),
+        }
+    }
+    // attributes in every combination of hint and status
+    for hint in [EncryptionHint::Classic, EncryptionHint::Hybridized] {
+        for status in [crate::abe_policy::AttributeStatus::EncryptDecrypt, crate::abe_policy::AttributeStatus::DecryptOnly] {
+            let mut a = crate::abe_policy::Attribute::new(hint, 5);
+            a.write_status = status;
+            let back = crate::abe_policy::Attribute::deserialize(&a.serialize().unwrap()).unwrap();
+            vchk!(back == a, "C13/C06: the attribute (hint {hint:?}, status {status:?}) deserializes to {back:?}: a disabled attribute must stay disabled and keep its hint through storage");
+            n += 1;
+        }
+    }
     let (empty_msk, empty_mpk) = cc.setup().unwrap();
     check_ser(&empty_msk, "MasterSecretKey (empty structure)");
     check_ser(&empty_mpk, "MasterPublicKey (empty structure)");
@@ -915,6 +947,18 @@ fn freshness__repeated_calls_never_repeat() {
         vchk!(hs.insert(s.to_vec()), "C16: two headers share their secret");
         let _ = h.decrypt(&cc, &usk, None).unwrap().unwrap();
         n += 1;
+    }
+    // the AE layer itself: identical key and plaintext, the nonce (first 12 bytes) still never repeats
+    {
+        use cosmian_crypto_core::{reexport::rand_core::SeedableRng, CsRng, SymmetricKey};
+        let mut rng = CsRng::from_entropy();
+        let key = SymmetricKey::<32>::derive(&Secret::<32>::random(&mut rng), b"k").unwrap_or_else(|_| panic!("kdf"));
+        let mut seen = BTreeSet::new();
+        for _ in 0..50 {
+            let c = <Aes256Gcm as crate::traits::AE<32>>::encrypt(&mut rng, &key, b"same plaintext").unwrap();
+            vchk!(seen.insert(c[..12].to_vec()), "C16: two AE ciphertexts under the same key and plaintext share their nonce");
+            n += 1;
+        }
     }
     // re-encapsulation draws fresh randomness too, and does not disturb later encapsulations
     {
